@@ -55,7 +55,7 @@ type Op struct {
 // Sched is the drawn interleaving bias. It cannot choose the schedule (the Go scheduler does), it
 // only changes its distribution.
 type Sched struct {
-	Release string   `json:"release"` // "barrier": all goroutines are released at once; "stagger": goroutine g yields g*Lag times first
+	Release string   `json:"release"` // "barrier": all goroutines are released at once (channel close); "spin": they also spin until all have arrived; "stagger": goroutine g yields g*Lag times first
 	Lag     int      `json:"lag,omitempty"`
 	Yield   []string `json:"yield"` // per goroutine, per call (cyclic): '0' none, '1' Gosched before, '2' after, '3' both
 }
@@ -93,16 +93,15 @@ func (c *Case) nops() int {
 type world interface {
 	do(g int, op *Op) string // one call, result in canonical form; panics are recovered into "panic: ..."
 	observe() string         // read-only sweep of everything observable, called when all goroutines are done
+	state() any              // the instance plus what the goroutines hold, for fingerprint()
 }
 
-// meta describes a call for the evidence (who overlapped with whom on what) and for the
-// linearizability search (pure reads do not extend the state key).
+// meta describes a call for the evidence (who overlapped with whom on what).
 type meta struct {
-	M      string   // method name
-	Write  bool     // changes what later calls can observe
-	Void   bool     // a write whose result says nothing about the state (ProcessSlot, Prune, Reset): every other call also reads
-	Impure bool     // a read that still writes inside the component (refreshes links, applies pending votes): kept in the state key
-	Keys   []string // what it touches; "*" = everything
+	M     string   // method name
+	Write bool     // changes what later calls can observe
+	Void  bool     // a write whose result says nothing about the state (ProcessSlot, Prune, Reset): every other call also reads
+	Keys  []string // what it touches; "*" = everything
 }
 
 func newWorld(c *Case) (w world, err error) {
@@ -190,6 +189,7 @@ func runConcurrent(c *Case, w world) *outcome {
 	o := &outcome{recs: make([][]rec, G)}
 	cur := make([]padded, G) // per goroutine: index of the call in flight, -1 when done (read by the watchdog only)
 	var ctr atomic.Int64
+	var arrived atomic.Int32
 	t0 := time.Now()
 	start := make(chan struct{})
 	var wg sync.WaitGroup
@@ -205,6 +205,16 @@ func runConcurrent(c *Case, w world) *outcome {
 				yield = c.Sched.Yield[g]
 			}
 			<-start
+			if c.Sched.Release == "spin" {
+				// tight release: everybody spins until everybody has arrived (the only harness-made
+				// synchronisation between the goroutines, before their first call)
+				arrived.Add(1)
+				for n := 0; arrived.Load() < int32(G); n++ {
+					if n%256 == 255 {
+						runtime.Gosched()
+					}
+				}
+			}
 			if c.Sched.Release == "stagger" {
 				for i := 0; i < g*c.Sched.Lag; i++ {
 					runtime.Gosched()
@@ -392,31 +402,37 @@ const finalG = 250
 func enc(r opRef) string { return string([]byte{byte(r.g), byte(r.j)}) }
 
 type linState struct {
-	key  string // mutating calls linearized so far, in order (what Equal looks at)
+	fp   string // fingerprint of the instance after replaying full (what Equal looks at)
 	full string // every call linearized so far, in order (what is replayed)
 }
 
+type replayed struct{ out, fp string }
+
 type seqSpec struct {
 	c        *Case
-	memo     map[string]string
+	memo     map[string]replayed
 	replays  int
 	blocked  bool // a purely sequential replay did not return: no verdict from this case
 	panicked map[string]bool
 }
 
+func newSeqSpec(c *Case) *seqSpec {
+	return &seqSpec{c: c, memo: map[string]replayed{}, panicked: map[string]bool{}}
+}
+
 // replay runs the calls of seq, then cand, on a fresh instance in this one goroutine and returns
-// cand's result.
-func (s *seqSpec) replay(seq string, cand opRef) string {
+// cand's result and the fingerprint of the instance afterwards.
+func (s *seqSpec) replay(seq string, cand opRef) replayed {
 	k := seq + enc(cand)
 	if v, ok := s.memo[k]; ok {
 		return v
 	}
 	s.replays++
-	var out string
+	var res replayed
 	ok := report.WithTimeout(watchdog, func() {
 		w, err := newWorld(s.c)
 		if err != nil {
-			out = "harness: " + err.Error()
+			res.out = "harness: " + err.Error()
 			return
 		}
 		for i := 0; i+1 < len(seq); i += 2 {
@@ -424,27 +440,21 @@ func (s *seqSpec) replay(seq string, cand opRef) string {
 			w.do(g, &s.c.Threads[g][j])
 		}
 		if cand.g == finalG {
-			out = guardCall(w.observe)
+			res.out = guardCall(w.observe)
 		} else {
-			out = w.do(cand.g, &s.c.Threads[cand.g][cand.j])
+			res.out = w.do(cand.g, &s.c.Threads[cand.g][cand.j])
 		}
+		res.fp = guardCall(func() string { return fingerprint(w.state()) })
 	})
 	if !ok {
 		s.blocked = true
-		out = "blocked"
+		res = replayed{out: "blocked"}
 	}
-	if strings.HasPrefix(out, "panic:") && cand.g != finalG {
+	if strings.HasPrefix(res.out, "panic:") && cand.g != finalG {
 		s.panicked[metaOf(s.c, &s.c.Threads[cand.g][cand.j]).M] = true
 	}
-	s.memo[k] = out
-	return out
-}
-
-func (s *seqSpec) opMeta(r opRef) meta {
-	if r.g == finalG {
-		return meta{M: "final", Impure: true}
-	}
-	return metaOf(s.c, &s.c.Threads[r.g][r.j])
+	s.memo[k] = res
+	return res
 }
 
 func sameResult(a, b string) bool {
@@ -463,19 +473,18 @@ func (s *seqSpec) model() porcupine.Model {
 			if s.blocked {
 				return false, st
 			}
-			if !sameResult(s.replay(st.full, in), output.(string)) {
+			res := s.replay(st.full, in)
+			if !sameResult(res.out, output.(string)) {
 				return false, st
 			}
-			ns := linState{key: st.key, full: st.full + enc(in)}
-			if m := s.opMeta(in); m.Write || m.Impure {
-				ns.key += enc(in)
-			}
-			return true, ns
+			return true, linState{fp: res.fp, full: st.full + enc(in)}
 		},
-		Equal: func(a, b interface{}) bool { return a.(linState).key == b.(linState).key },
+		// Two prefixes are the same state when the replayed instances are structurally identical. (porcupine
+		// only compares states of prefixes that linearized the same set of calls.)
+		Equal: func(a, b interface{}) bool { return a.(linState).fp == b.(linState).fp },
 		Hash: func(a interface{}) uint64 {
 			h := fnv.New64a()
-			h.Write([]byte(a.(linState).key))
+			h.Write([]byte(a.(linState).fp))
 			return h.Sum64()
 		},
 	}
@@ -491,7 +500,7 @@ type linVerdict struct {
 var linBudget = 8 * time.Second
 
 func checkLinearizable(c *Case, o *outcome) *linVerdict {
-	s := &seqSpec{c: c, memo: map[string]string{}, panicked: map[string]bool{}}
+	s := newSeqSpec(c)
 	var hist []porcupine.Operation
 	var maxStamp int64
 	for g := range o.recs {
